@@ -1,6 +1,7 @@
+import PlaybackModel.Source
 /-
 Model of `playback/tape_recorder.py` (TapeRecorder): operation / intercept_input / intercept_output decorators,
-recording scope, discard / force, sampling, post-operation metadata, play().  Import-free, executable.
+recording scope, discard / force, sampling, post-operation metadata, play().  Imports only the decision atoms read from the source; executable.
 
 Programs are interaction trees (`Prog`): the continuation `k` is an arbitrary function of what the intercepted call
 handed back to its caller, so a theorem over all `Prog` covers every deterministic operation.  The body of an
@@ -54,7 +55,8 @@ inductive RVal where
   | raw (v : Val)                                               -- record_data
   deriving DecidableEq, Repr, Inhabited
 
-def opAlias : String := "_tape_recorder_operation"
+/-- `TapeRecorder.OPERATION_OUTPUT_ALIAS`, as it stands in the source -/
+def opAlias : String := PlaybackModel.Source.opOutputAlias
 
 /-- subclasses of `TapeRecorderException`: re-raised by `_execute_operation_func` without an operation output -/
 def isFramework (t : String) : Bool :=
@@ -69,6 +71,12 @@ structure Q where
 
 def Q.le (a b : Q) : Bool := decide (a.num * b.den ≤ b.num * a.den)
 def Q.geOne (a : Q) : Bool := decide ((a.den : Int) ≤ a.num)
+/-- `a <op> b` on exact rationals (denominators positive) -/
+def Q.cmp (c : PlaybackModel.Atoms.Cmp) (a b : Q) : Bool := c.int (a.num * b.den) (b.num * a.den)
+/-- `recording_parameters.sampling_rate >= 1`, with the operator as it stands in the source -/
+def rateAlways (r : Q) : Bool := Q.cmp PlaybackModel.Source.rateAlwaysCmp r ⟨1, 1⟩
+/-- `sample_value <= recording_parameters.sampling_rate`, with the operator as it stands in the source -/
+def drawKeeps (d r : Q) : Bool := Q.cmp PlaybackModel.Source.drawKeepCmp d r
 
 structure Params where
   rate : Q := ⟨1, 1⟩
@@ -369,10 +377,10 @@ def draw (s : St) : St × Q :=
 /-- `_should_sample_active_recording` -/
 def shouldSample (s : St) (params : Params) (forced : Bool) : St × Bool :=
   if forced then (s, true)
-  else if params.rate.geOne then (s, true)
+  else if rateAlways params.rate then (s, true)
   else
     let (s1, d) := draw s
-    (s1, d.le params.rate)
+    (s1, drawKeeps d params.rate)
 
 /-- the next PRNG draw -/
 def headDraw (s : St) : Q :=
@@ -392,7 +400,7 @@ def drawsUsed (forced : Bool) (params : Params) : Nat :=
 def s3ShouldSample (ratio : Option Q) (d : Q) : Bool :=
   match ratio with
   | none => true
-  | some r => r.geOne || d.le r
+  | some r => rateAlways r || drawKeeps d r
 
 /-- is there an output whose key contains the reserved operation alias?  (`OPERATION_OUTPUT_ALIAS in o.key`) -/
 def hasOpOutput (aliasContainsOp : String → Bool) : Data → Bool
